@@ -293,6 +293,21 @@ class Interp:
             for c, v, t in self.eval(e["e"], env, cons, ptags):
                 self.returns.append((c, v, t, line))
             return []
+        if k == "If" and e["cond"].get("k") == "Let":
+            # `if let PAT = scrut { then } else { otherwise }`: a two-armed match; when the pattern contributes one
+            # constraint and binds nothing the else branch runs under its negation
+            out = []
+            lc = e["cond"]
+            for c, sv, t in self.eval(lc["init"], env, cons, ptags):
+                env2, c2, t2 = self.match_pat(lc["pat"], sv, env, c, t)
+                out += self.eval(e["then"], env2, c2, t2)
+                extra = c2[len(c):]
+                negc = [NOT(extra[0])] if len(extra) == 1 and env2 == env else []
+                if e.get("else") is not None:
+                    out += self.eval(e["else"], env, c + negc, t)
+                else:
+                    out.append((c + negc, Val("unit"), t))
+            return out
         if k == "If":
             out = []
             for c, cv, t in self.eval(e["cond"], env, cons, ptags):
